@@ -1,0 +1,14 @@
+//go:build verif
+
+package wallet
+
+// Contracts checked by /verif (gvc). This file contains comments only and is compiled only with -tags verif.
+
+// ed25519 verification is cryptographic and stays uninterpreted: sigValid(pk, msg, sig).
+//@ spec sigValid(pk int, msg int, sig int) bool
+
+//@ func VerifySignature(pubkey, message, sig) -> (ok, err)
+//@   trusted
+//@   ensures err == nil ==> (ok <==> sigValid(bytesval(pubkey), bytesval(message), bytesval(sig)))
+//@   ensures err == nil ==> len(pubkey) == 32
+//@   modifies nothing
